@@ -73,6 +73,7 @@ func (s *Server) DidOpen(ctx context.Context, params *lsp.DidOpenTextDocumentPar
 
 	filename := params.TextDocument.URI.Filename()
 	content := params.TextDocument.Text
+	verifPoint("DidOpen:store")
 	s.docs[filename] = &document{
 		version: uint32(params.TextDocument.Version),
 		content: content,
@@ -88,6 +89,7 @@ func (s *Server) DidSave(ctx context.Context, params *lsp.DidSaveTextDocumentPar
 func (s *Server) DidChange(ctx context.Context, params *lsp.DidChangeTextDocumentParams) error {
 	filename := params.TextDocument.URI.Filename()
 	content := params.ContentChanges[0].Text
+	verifPoint("DidChange:store")
 	s.docs[filename] = &document{
 		version: uint32(params.TextDocument.Version),
 		content: content,
@@ -97,6 +99,7 @@ func (s *Server) DidChange(ctx context.Context, params *lsp.DidChangeTextDocumen
 
 func (s *Server) DidClose(ctx context.Context, params *lsp.DidCloseTextDocumentParams) error {
 	filename := params.TextDocument.URI.Filename()
+	verifPoint("DidClose:delete")
 	delete(s.docs, filename)
 	s.logger.Info("closed", zap.String("filename", params.TextDocument.URI.Filename()))
 	return nil
@@ -125,6 +128,7 @@ func (s *Server) typecheck(ctx context.Context, uri lsp.DocumentURI, version uin
 		// nil and empty arrays are marshalled differently.
 		res = []lsp.Diagnostic{}
 	}
+	verifPoint("typecheck:publish")
 	return s.client.PublishDiagnostics(ctx, &lsp.PublishDiagnosticsParams{
 		URI:         uri,
 		Version:     version,
@@ -135,7 +139,9 @@ func (s *Server) typecheck(ctx context.Context, uri lsp.DocumentURI, version uin
 func keepGoing(err tm.SyntaxError) bool { return true }
 
 func (s *Server) Definition(ctx context.Context, params *lsp.DefinitionParams) (result []lsp.Location, err error) {
+	defer verifPoint("Definition:reply")
 	filename := params.TextDocument.URI.Filename()
+	verifPoint("Definition:read")
 	doc := s.docs[filename]
 	if doc == nil {
 		return nil, fmt.Errorf("%s is not opened", filename)
